@@ -15,6 +15,8 @@ def setup():
         return _SETUP
     mc = use_repo()
     import sys
+    import warnings
+    warnings.filterwarnings('ignore', message='.*CFB8 has been moved.*')
     sys.setswitchinterval(1e-6)     # baton hand-offs: 6 ms -> 2.5 ms / run
     from vf.runner import pin_self
     pin_self()
@@ -108,7 +110,7 @@ class World(object):
 
 
 def run(body, prefix=(), tracing=False, horizon=20000, expect=None,
-        seed=0, **netkw):
+        seed=0, visited=None, budget=0, **netkw):
     """Execute body(World) as the driver; returns pysched.Execution."""
     setup()
 
@@ -116,4 +118,5 @@ def run(body, prefix=(), tracing=False, horizon=20000, expect=None,
         S.urandom_seed = seed
         W = World(S, **netkw)
         return body(W)
-    return pysched.run_execution(driver, prefix, tracing, horizon, expect)
+    return pysched.run_execution(driver, prefix, tracing, horizon, expect,
+                                 visited, budget)
